@@ -202,7 +202,7 @@ def harnesses(tier):
         Harness('evaluate_section_filter', h_section_filter, [SE + 'evaluate_section_filter']),
         Harness('classify_merchants', h_classify_merchants, [SE + 'classify_merchants']),
         Harness('compute_section_totals', h_section_totals, [AN + 'compute_section_totals']),
-    ]
+    ] + __import__('props.C10_variables', fromlist=['harnesses']).harnesses(tier)
 
 
 def structural(tier, res):
